@@ -1,10 +1,12 @@
 #!/usr/bin/env python3
-"""For every `fixed:` entry of known_findings.txt: re-introduce the defect (reverse-apply the fix commit) in /repo, run the check of the
+"""For every `fixed:` entry of known_findings.txt: re-introduce the defect (reverse-apply the fix commit) in a scratch worktree of /repo, run the check of the
 property it is filed under (plus the ones named '(also Cxx)'), undo.  A repaired defect that returns must be reported again."""
 import json, os, re, subprocess
 from pathlib import Path
 V = Path('/verif')
-assert not subprocess.run(["git", "-C", "/repo", "status", "--short"], capture_output=True, text=True).stdout.strip(), "/repo not clean"
+WT = "/tmp/revfix-wt"      # scratch worktree: /repo itself is never touched; the checks read it through FROUROS_REPO
+subprocess.run(["git", "-C", "/repo", "worktree", "remove", "--force", WT], capture_output=True)
+subprocess.run(["git", "-C", "/repo", "worktree", "add", "--detach", WT, "HEAD", "-q"], check=True)
 res = {}
 for line in (V / "known_findings.txt").read_text().splitlines():
     m = re.match(r"fixed: property=(C\d+) ([0-9a-f]{7}) (.*)", line)
@@ -13,18 +15,20 @@ for line in (V / "known_findings.txt").read_text().splitlines():
     prop, commit, what = m.groups()
     props = [prop] + re.findall(r"also (C\d+)", what)
     diff = subprocess.run(["git", "-C", "/repo", "diff", commit, commit + "^"], capture_output=True, text=True).stdout
-    p = subprocess.run(["git", "-C", "/repo", "apply", "-"], input=diff, capture_output=True, text=True)
+    p = subprocess.run(["git", "-C", WT, "apply", "-"], input=diff, capture_output=True, text=True)
     if p.returncode:
         res[commit] = {"props": props, "result": "reverse patch does not apply (later fix touches the same lines)", "what": what}
         print(commit, res[commit]["result"]); continue
     try:
         out = {}
         for q in props:
-            r = subprocess.run(["./check", q], cwd=V, capture_output=True, text=True, env={**os.environ, "VERIF_SEED": os.environ.get("VERIF_SEED", "4")})
+            r = subprocess.run(["./check", q], cwd=V, capture_output=True, text=True, env={**os.environ, "FROUROS_REPO": WT, "VERIF_SEED": os.environ.get("VERIF_SEED", "4")})
             kind = "not reported" if r.returncode == 0 else ("infra" if r.returncode != 1 else ("violation-with-input" if any(l.startswith("VIOLATION") and "no-failing-input-found" not in l for l in r.stdout.splitlines()) else "no-failing-input-found"))
             out[q] = kind
     finally:
-        subprocess.run(["git", "-C", "/repo", "checkout", "--", "."], check=True)
+        subprocess.run(["git", "-C", WT, "checkout", "--", "."], check=True)
     res[commit] = {"props": out, "what": what}
     print(commit, out, what[:70], flush=True)
 (V / "seeded" / "reverted_fixes.json").write_text(json.dumps(res, indent=1))
+subprocess.run(["git", "-C", "/repo", "worktree", "remove", "--force", WT], capture_output=True)
+subprocess.run(["git", "-C", "/repo", "worktree", "prune"], capture_output=True)
